@@ -155,7 +155,7 @@ def generate(tier, rng):
     yield c
     e = [-20, 10, 20, -10, 10, -20][j]
     c = _case(rng, kind, [4, 6, 3])
-    c['scale'], c['noise'], c['hp'], c['reg'] = e, False, base_hp, 0.0
+    c['scale'], c['noise'], c['hp'], c['reg'], c['xdtype'] = e, False, base_hp, 0.0, 'float32'   # 2**20 overflows float16
     c['copt'] = SGD(0.125 * 2.0 ** (-2 * e))
     if kind == 'fedprox':
       c['mu'] = 0.5 * 2.0 ** (2 * e)          # the penalty gradient mu*(w - w_s) scales like the data term
@@ -548,6 +548,8 @@ def encode(case, obs):
                      for r, rnd in enumerate(case['rounds'])])
   cterm = (f'(mkC12 {ALGO_TAG[case["kind"]]} {_sgd(case["copt"])} {_sgd(case["sopt"])} {fw.qlit(case["mu"])} {fw.qlit(case.get("reg", 0.0))} {fw.qlit(case["slr"])} '
            f'{fw.qlist(case["init"])} {pop} {streams} {gstreams} {rounds} {fw.qlit(TOL)})')
+  if not all(fs.finite(p) for p in obs['a']):
+    return None     # the oracle reports non-finite parameters
   oterm = fw.clist([fw.qlist(p) for p in obs['a']])
   return f'({cterm}, {oterm})'
 
